@@ -22,6 +22,34 @@ theorem C19_hash_set (ps : Bytes) (icann : Bool) (host : Bytes) (hps : psOK ps i
       (s ∈ subdomains host ∧ s ≠ [] ∧ dots s ≤ 3 ∧ ¬ (icann = true ∧ isDotSuffixOrEq s ps = true)) := by
   rw [mem_hashedNames hps, mem_allowedNames]
 
+/-- **At most four names** are hashed (hence at most four prefixes disclosed),
+for every host and every oracle value. -/
+theorem C19_at_most_four (H : Bytes → Hash) (ps : Bytes) (icann : Bool) (host : Bytes) :
+    (hostnameToHashes H ps icann host).length ≤ 4 := by
+  simp only [hostnameToHashes, List.length_map]
+  exact length_hashedNames_le ps icann host
+
+/-- **Exactly how many**: the host (non-empty, no trailing dot) is cut to its
+last four labels FIRST, then the ICANN suffix with all its labels is left
+out: `min(labels, 4) − suffixLabels` (so `a.b.c.d.co.uk` hashes two names,
+`c.d.co.uk` and `d.co.uk`; for a private or unknown suffix nothing is left
+out).  Labels = dots + 1. -/
+theorem C19_hash_count (H : Bytes → Hash) (ps : Bytes) (icann : Bool) (host : Bytes)
+    (hps : psOK ps icann host = true) (hne : host ≠ []) (hdot : host.getLast? ≠ some dot) :
+    (hostnameToHashes H ps icann host).length =
+      min (dots host + 1) 4 - (if icann then dots ps + 1 else 0) := by
+  simp only [hostnameToHashes, List.length_map]
+  exact length_hashedNames hps hne hdot
+
+/-- **Every order Go may pick**: the iteration sequences of the `hashToStore`
+map that the theorems quantify over (`validGroups`) are exactly the
+permutations of the first-appearance order, and that order itself is one. -/
+theorem C19_map_orders (recv : List Hash) (gs : List (Prefix × List Hash)) :
+    validGroups recv (canonGroups recv) = true ∧
+    (validGroups recv gs = true ↔ gs.Perm (canonGroups recv)) :=
+  ⟨canonGroups_valid recv,
+   fun h => validGroups_perm_canon h, fun h => validGroups_perm h (canonGroups_valid recv)⟩
+
 /-- `subdomains` really is "the name and everything that follows a dot". -/
 theorem C19_parents (s d : Bytes) :
     s ∈ subdomains d ↔ d ≠ [] ∧ (s = d ∨ ∃ pre, d = pre ++ dot :: s) :=
@@ -186,6 +214,11 @@ example : (doCheck exCf exW exOp).1 = ⟨.blocked true, some (getQuestion exCf.s
   decide
 
 example : freshVerdict exOp.H exDb exOp.ps exOp.icann exOp.host = true := by decide
+
+/-- a.b.c.d.co.uk (ICANN suffix co.uk): two names are hashed, not four -/
+example : hashedNames [99, 111, 46, 117, 107] true
+    [97, 46, 98, 46, 99, 46, 100, 46, 99, 111, 46, 117, 107] =
+    [[99, 46, 100, 46, 99, 111, 46, 117, 107], [100, 46, 99, 111, 46, 117, 107]] := by decide
 
 /-- the assumptions of the history theorems are satisfiable by this history
 (fresh lookup, one second later a lookup answered from the cache, twenty
